@@ -272,7 +272,7 @@ func instFallthroughMeta(interp *Interpreter, instr *InstrMeta) (ExitReason, Pro
 // opcode 10
 func instEcalliMeta(interp *Interpreter, instr *InstrMeta) (ExitReason, ProgramCounter) {
 	nuX := instr.Imm[0]
-	return ExitHostCall | ExitReason(nuX), instr.PC
+	return hostCallExit(nuX), instr.PC
 }
 
 // opcode 20
